@@ -236,11 +236,11 @@ def configs(tier):
     if tier == "quick":
         Fs, Hs, blocks, mults = (1, 2, 3, 4), (1, 2, 3, 5), (0, 1, 2), (1, 2)
     else:
-        Fs, Hs, blocks, mults = (1, 2, 3, 4, 5), (1, 2, 3, 4, 5, 6), (0, 1, 2), (1, 2, 3)
+        Fs, Hs, blocks, mults = (1, 2, 3, 4, 5, 6), (1, 2, 3, 4, 5, 6, 8), (0, 1, 2, 3), (1, 2, 3)
     for copy in ("transforms", "nde"):
         for Fn, H, b, mult in itertools.product(Fs, Hs, blocks, mults):
             for residual, random in ((True, False), (False, False), (False, True)):
-                if random and (Fn * H * max(b, 1) > (40 if tier == "quick" else 60)):
+                if random and (Fn * H * max(b, 1) > (40 if tier == "quick" else 72)):
                     continue
                 for ctx in ((None, 2) if (H in (2, 3) and mult == 1) else (None,)):
                     for bn, drop in (((False, 0.0), (True, 0.5)) if (H == 3 and mult == 1) else ((False, 0.0),)):
@@ -248,7 +248,7 @@ def configs(tier):
         # the constructor must refuse residual blocks with random masks
         cfgs.append({"copy": copy, "F": 3, "H": 4, "blocks": 1, "mult": 1, "residual": True, "random": True, "ctx": None, "bn": False, "dropout": 0.0, "timeout": t})
     # mixture-of-Gaussians MADE (output multiplier 3 * components), nde copy only
-    for Fn, H, comps in itertools.product((1, 2, 3), (2, 4), (1, 2)):
+    for Fn, H, comps in itertools.product((1, 2, 3) if tier == "quick" else (1, 2, 3, 4), (2, 4) if tier == "quick" else (2, 4, 6), (1, 2) if tier == "quick" else (1, 2, 3)):
         for residual, random in ((True, False), (False, True)):
             cfgs.append({"copy": "nde", "mog": True, "F": Fn, "H": H, "blocks": 1, "mult": comps, "residual": residual, "random": random, "ctx": 2, "bn": False, "dropout": 0.0, "timeout": t})
     return cfgs
